@@ -10,6 +10,12 @@ Proof.
   inversion H; subst. constructor; [|auto]. intro Hin. apply H2. apply in_or_app. now left.
 Qed.
 
+Lemma NoDup_app_disjoint {A} (l l' : list A) x : NoDup (l ++ l') -> In x l -> In x l' -> False.
+Proof.
+  induction l as [|y r IH]; simpl; intros Hnd H1 H2; [tauto|].
+  inversion Hnd; subst. destruct H1 as [->|H1]; [apply H3; apply in_or_app; now right|eauto].
+Qed.
+
 Definition hand (tk : list (nat * (nat * tphase))) : list nat :=
   flat_map (fun e => match snd (snd e) with THave c => [c] | TDial => [] end) tk.
 
@@ -156,7 +162,7 @@ Proof.
     { eapply Permutation_NoDup; [|exact b_nd0]. apply Permutation_sym. eapply perm_trans; [apply Permutation_middle|].
       apply Permutation_app_head. change (Permutation ((c :: hand (aremove k (p_tasks s))) ++ p_closing s) (hand (p_tasks s) ++ p_closing s)).
       now apply Permutation_app_tail. }
-    destruct (p_closed s) eqn:Ecl; inv_some H;
+    destruct (p_closed s) eqn:Ecl; [|destruct (negb (memb c (p_open s))) eqn:Eo]; inv_some H;
       constructor; unfold no_leak; rewrite ?in_hand_hand; cbn [p_conns p_tasks p_closing p_open p_dead p_closed p_next_conn].
     + now inversion Hnd'.
     + intros x Hx. apply b_lt0. in_apps. destruct Hx as [Hx|[Hx|[Hx|[Hx|Hx]]]]; auto.
@@ -166,6 +172,15 @@ Proof.
     + intros x Hx. apply In_remn in Hx. apply b_disj0. tauto.
     + intros x Hx. apply In_remn in Hx. destruct Hx as [Hx Hne]. destruct (b_acc0 x Hx) as [H1|[H1|H1]]; auto.
       apply (Permutation_in _ (Permutation_sym P)) in H1. destruct H1; [congruence|auto].
+    + auto.
+    + now inversion Hnd'.
+    + intros x Hx. apply b_lt0. in_apps. destruct Hx as [Hx|[Hx|[Hx|[Hx|Hx]]]]; auto.
+      right; left. apply (Permutation_in _ P). now right.
+    + assumption.
+    + assumption.
+    + apply Bool.negb_true_iff in Eo. apply memb_false in Eo.
+      intros x Hx. destruct (b_acc0 x Hx) as [H1|[H1|H1]]; auto.
+      apply (Permutation_in _ (Permutation_sym P)) in H1. destruct H1; [subst; tauto|auto].
     + auto.
     + rewrite <- app_assoc. simpl. eapply Permutation_NoDup; [|exact Hnd']. apply Permutation_middle.
     + intros x Hx. apply b_lt0. in_apps. destruct Hx as [[Hx|[Hx|[]]]|[Hx|[Hx|[Hx|Hx]]]]; auto.
@@ -280,13 +295,12 @@ Proof.
   - inv_some H. cbn [p_conns p_threads]. apply memb_false in Ec. split; [assumption|]. split; [auto|tauto].
 Qed.
 
-(* ---- pooled connections are alive unless HandleError overtook the append ---- *)
-Definition invC (s : pool) : Prop := forall c, In c (p_conns s ++ in_hand s) -> In c (p_open s) \/ In c (p_dead s).
-
-Lemma invC_step s l s' : invA s -> invB s -> invC s -> herr_in_hand s l = false -> pstep s l = Some s' -> invC s'.
+(* ---- pooled connections are alive: connect does not pool a connection that has failed ---- *)
+Lemma invC_step s l s' : invA s -> invB s -> pooled_conns_alive s -> pstep s l = Some s' -> pooled_conns_alive s'.
 Proof.
-  intros IA IB IC Hg H. unfold invC in *. rewrite in_hand_hand in *.
+  intros IA IB IC H. unfold pooled_conns_alive in *.
   pose proof (b_nd s IB) as Hnd. rewrite in_hand_hand in Hnd.
+  assert (Hndc : NoDup (p_conns s)) by (apply NoDup_app_l in Hnd; exact Hnd).
   destruct l as [t|t|t|t|t|k|k|k|k|c|c t| |]; cbn [pstep] in H.
   - destruct (memb t (akeys (p_threads s))); [discriminate|]. inv_some H. exact IC.
   - destruct (alookup t (p_threads s)) as [[| | | |]|]; try discriminate.
@@ -294,94 +308,57 @@ Proof.
     destruct (p_size s - Z.of_nat (length (p_conns s)) <=? 0); inv_some H; exact IC.
   - destruct (alookup t (p_threads s)) as [[| | | |]|]; try discriminate.
     destruct (p_closed s || p_filling s || (p_size s - Z.of_nat (length (p_conns s)) <=? 0)); [inv_some H; exact IC|].
-    destruct (length (p_conns s)); inv_some H; rewrite ?in_hand_hand; cbn [p_conns p_tasks p_open p_dead]; [|exact IC].
-    rewrite hand_app. simpl. rewrite app_nil_r. exact IC.
-  - destruct (alookup t (p_threads s)) as [[| | |rem|]|]; try discriminate. inv_some H.
-    rewrite ?in_hand_hand; cbn [p_conns p_tasks p_open p_dead]. rewrite hand_app, hand_new_tasks, app_nil_r. exact IC.
+    destruct (length (p_conns s)); inv_some H; exact IC.
+  - destruct (alookup t (p_threads s)) as [[| | |rem|]|]; try discriminate. inv_some H. exact IC.
   - destruct (alookup t (p_threads s)) as [[| | | |]|]; try discriminate.
     destruct (existsb (owns t) (p_tasks s)); [discriminate|]. inv_some H. exact IC.
   - (* DialOk *)
-    destruct (alookup k (p_tasks s)) as [[t [|c]]|] eqn:E; try discriminate. inv_some H.
-    rewrite ?in_hand_hand; cbn [p_conns p_tasks p_open p_dead].
-    pose proof (hand_aset_have k t (p_next_conn s) _ E) as P.
-    intros c Hc. in_apps. destruct Hc as [Hc|Hc].
-    + destruct (IC c) as [H1|H1]; in_apps; auto.
-    + apply (Permutation_in _ P) in Hc. destruct Hc as [->|Hc]; [left; in_apps; auto|].
-      destruct (IC c) as [H1|H1]; in_apps; auto.
-  - (* DialFail *)
-    destruct (alookup k (p_tasks s)) as [[t [|c]]|] eqn:E; try discriminate. inv_some H.
-    rewrite ?in_hand_hand; cbn [p_conns p_tasks p_open p_dead]. rewrite (hand_aremove_dial k t _ E). exact IC.
-  - (* KsFail *)
-    destruct (alookup k (p_tasks s)) as [[t [|c]]|] eqn:E; try discriminate. inv_some H.
-    rewrite ?in_hand_hand; cbn [p_conns p_tasks p_open p_dead].
-    pose proof (hand_aremove_have k t c _ E) as P.
-    assert (Hnd' : NoDup (c :: p_conns s ++ hand (aremove k (p_tasks s)) ++ p_closing s)).
-    { eapply Permutation_NoDup; [|exact Hnd]. apply Permutation_sym. eapply perm_trans; [apply Permutation_middle|].
-      apply Permutation_app_head. change (Permutation ((c :: hand (aremove k (p_tasks s))) ++ p_closing s) (hand (p_tasks s) ++ p_closing s)).
-      now apply Permutation_app_tail. }
-    inversion Hnd' as [|? ? Hni _]; subst.
-    intros x Hx. assert (x <> c) by (intro; subst; apply Hni; in_apps; intuition congruence).
-    destruct (IC x) as [H1|H1]; [in_apps; destruct Hx; auto; right; apply (Permutation_in _ P); now right| |auto].
-    left. apply In_remn. auto.
+    destruct (alookup k (p_tasks s)) as [[t [|c]]|] eqn:E; try discriminate. inv_some H. cbn [p_conns p_open p_dead].
+    intros c Hc. destruct (IC c Hc); [left; apply in_or_app; now left|now right].
+  - destruct (alookup k (p_tasks s)) as [[t [|c]]|] eqn:E; try discriminate. inv_some H. exact IC.
+  - (* KsFail: the connection closed is the one in hand, not a pooled one *)
+    destruct (alookup k (p_tasks s)) as [[t [|c]]|] eqn:E; try discriminate. inv_some H. cbn [p_conns p_open p_dead].
+    pose proof (alookup_have_in_hand k t c _ E) as Hh.
+    intros x Hx. assert (x <> c).
+    { intro Hxc. rewrite Hxc in Hx. apply (NoDup_app_disjoint _ _ c Hnd); [assumption|apply in_or_app; now left]. }
+    destruct (IC x Hx) as [H1|H1]; [left; apply In_remn; auto|now right].
   - (* ConnectAdd *)
     destruct (alookup k (p_tasks s)) as [[t [|c]]|] eqn:E; try discriminate.
-    pose proof (hand_aremove_have k t c _ E) as P.
-    assert (Hnd' : NoDup (c :: p_conns s ++ hand (aremove k (p_tasks s)) ++ p_closing s)).
-    { eapply Permutation_NoDup; [|exact Hnd]. apply Permutation_sym. eapply perm_trans; [apply Permutation_middle|].
-      apply Permutation_app_head. change (Permutation ((c :: hand (aremove k (p_tasks s))) ++ p_closing s) (hand (p_tasks s) ++ p_closing s)).
-      now apply Permutation_app_tail. }
-    inversion Hnd' as [|? ? Hni _]; subst.
-    destruct (p_closed s); inv_some H; rewrite ?in_hand_hand; cbn [p_conns p_tasks p_open p_dead].
-    + intros x Hx. assert (x <> c) by (intro; subst; apply Hni; in_apps; intuition congruence).
-      destruct (IC x) as [H1|H1]; [in_apps; destruct Hx; auto; right; apply (Permutation_in _ P); now right| |auto].
-      left. apply In_remn. auto.
-    + intros x Hx. apply IC. in_apps. destruct Hx as [[Hx|[Hx|[]]]|Hx]; auto.
-      * subst x. right. apply (Permutation_in _ P). now left.
-      * right. apply (Permutation_in _ P). now right.
+    pose proof (alookup_have_in_hand k t c _ E) as Hh.
+    destruct (p_closed s) eqn:Ecl; [|destruct (negb (memb c (p_open s))) eqn:Eo]; inv_some H; cbn [p_conns p_open p_dead].
+    + rewrite (b_closed s IB Ecl). intros x [].
+    + exact IC.
+    + apply Bool.negb_false_iff in Eo. apply memb_In in Eo.
+      intros x Hx. apply in_app_or in Hx. destruct Hx as [Hx|[Hx|[]]]; [auto|subst; now left].
   - (* ConnDie *)
-    destruct (memb c (p_open s)); [|discriminate]. inv_some H. rewrite ?in_hand_hand; cbn [p_conns p_tasks p_open p_dead].
-    intros x Hx. destruct (Nat.eq_dec x c) as [->|Hne]; [right; in_apps; auto|].
-    destruct (IC x Hx) as [H1|H1]; [left; apply In_remn; auto|right; in_apps; auto].
+    destruct (memb c (p_open s)); [|discriminate]. inv_some H. cbn [p_conns p_open p_dead].
+    intros x Hx. destruct (Nat.eq_dec x c) as [->|Hne]; [right; apply in_or_app; right; now left|].
+    destruct (IC x Hx) as [H1|H1]; [left; apply In_remn; auto|right; apply in_or_app; now left].
   - (* HErr *)
-    simpl in Hg. apply memb_false in Hg. rewrite in_hand_hand in Hg.
     destruct (memb c (p_dead s)); [|discriminate].
     destruct (p_closed s) eqn:Ecl.
-    { inv_some H. rewrite ?in_hand_hand; cbn [p_conns p_tasks p_open p_dead].
-      rewrite (b_closed s IB Ecl) in *. simpl in *. intros x Hx. assert (x <> c) by (intro; subst; tauto).
-      destruct (IC x Hx) as [H1|H1]; auto. right. apply In_remn. auto. }
-    assert (Hndc : NoDup (p_conns s)) by (apply NoDup_app_l in Hnd; exact Hnd).
+    { inv_some H. cbn [p_conns p_open p_dead]. rewrite (b_closed s IB Ecl). intros x []. }
     destruct (memb c (p_conns s)) eqn:Ec.
-    + destruct (memb t (akeys (p_threads s))); [discriminate|]. inv_some H. rewrite ?in_hand_hand; cbn [p_conns p_tasks p_open p_dead].
-      intros x Hx. in_apps.
-      assert (x <> c). { destruct Hx as [Hx|Hx]; [|intro; subst; tauto]. intro; subst. now apply (remove_swap_NoDup c _ Hndc). }
-      assert (Hold : In x (p_conns s ++ hand (p_tasks s))).
-      { in_apps. destruct Hx as [Hx|Hx]; [left; eapply remove_swap_In; eauto|right; exact Hx]. }
-      destruct (IC x Hold) as [H1|H1]; [left; exact H1|right; apply In_remn; split; assumption].
-    + inv_some H. rewrite ?in_hand_hand; cbn [p_conns p_tasks p_open p_dead]. apply memb_false in Ec.
-      intros x Hx. assert (x <> c) by (in_apps; intro; subst; tauto).
-      destruct (IC x Hx) as [H1|H1]; auto. right. apply In_remn. auto.
-  - (* PClose *)
-    destruct (p_closed s); inv_some H; [exact IC|]. rewrite ?in_hand_hand; cbn [p_conns p_tasks p_open p_dead].
-    intros x Hx. apply IC. in_apps. intuition.
+    + destruct (memb t (akeys (p_threads s))); [discriminate|]. inv_some H. cbn [p_conns p_open p_dead].
+      intros x Hx. assert (x <> c) by (intro; subst; now apply (remove_swap_NoDup c _ Hndc)).
+      destruct (IC x (remove_swap_In _ _ _ Hx)) as [H1|H1]; [now left|right; apply In_remn; auto].
+    + inv_some H. cbn [p_conns p_open p_dead]. apply memb_false in Ec.
+      intros x Hx. assert (x <> c) by (intro; subst; tauto).
+      destruct (IC x Hx) as [H1|H1]; [now left|right; apply In_remn; auto].
+  - destruct (p_closed s); inv_some H; [exact IC|]. cbn [p_conns p_open p_dead]. intros x [].
   - (* PCloseConn *)
-    destruct (p_closing s) as [|c r] eqn:Ecg; [discriminate|]. inv_some H. rewrite ?in_hand_hand; cbn [p_conns p_tasks p_open p_dead].
-    assert (Hnd' : NoDup (c :: p_conns s ++ hand (p_tasks s) ++ r)).
-    { eapply Permutation_NoDup; [|exact Hnd]. apply Permutation_sym. eapply perm_trans; [apply Permutation_middle|].
-      apply Permutation_app_head. apply Permutation_middle. }
-    inversion Hnd' as [|? ? Hni _]; subst.
-    intros x Hx. assert (x <> c) by (intro; subst; apply Hni; in_apps; intuition congruence).
-    destruct (IC x Hx) as [H1|H1]; auto. left. apply In_remn. auto.
+    destruct (p_closing s) as [|c r] eqn:Ecg; [discriminate|]. inv_some H. cbn [p_conns p_open p_dead].
+    intros x Hx. assert (x <> c).
+    { intro Hxc. rewrite Hxc in Hx. apply (NoDup_app_disjoint _ _ c Hnd); [assumption|]. apply in_or_app. right. now left. }
+    destruct (IC x Hx) as [H1|H1]; [left; apply In_remn; auto|now right].
 Qed.
 
-Lemma pool_conns_alive_lemma size ls s : prun (pool_init size) ls = Some s ->
-  pavoids herr_in_hand (pool_init size) ls = true -> pooled_conns_alive s.
+Lemma pool_conns_alive_lemma size ls s : prun (pool_init size) ls = Some s -> pooled_conns_alive s.
 Proof.
-  assert (G : forall ls s0 s, invA s0 -> invB s0 -> invC s0 -> prun s0 ls = Some s -> pavoids herr_in_hand s0 ls = true -> invC s).
-  { clear. intro ls. induction ls as [|l r IH]; simpl; intros s0 s1 IA IB IC H Hg; [inversion H; subst; auto|].
-    destruct (pstep s0 l) eqn:E; [|discriminate]. apply andb_true_iff in Hg. destruct Hg as [Hg1 Hg2].
-    apply Bool.negb_true_iff in Hg1.
-    eapply IH; [eapply invA_step; eauto|eapply invB_step; eauto|eapply invC_step; eauto|exact H|exact Hg2]. }
-  intros H Hg c Hc. eapply (G ls (pool_init size) s); eauto using invA_init, invB_init.
-  - intros x Hx. simpl in Hx. destruct Hx.
-  - apply in_or_app. now left.
+  assert (G : forall ls s0 s, invA s0 -> invB s0 -> pooled_conns_alive s0 -> prun s0 ls = Some s -> pooled_conns_alive s).
+  { clear. intro ls. induction ls as [|l r IH]; simpl; intros s0 s1 IA IB IC H; [inversion H; subst; auto|].
+    destruct (pstep s0 l) eqn:E; [|discriminate].
+    eapply IH; [eapply invA_step; eauto|eapply invB_step; eauto|eapply invC_step; eauto|exact H]. }
+  intros H. eapply (G ls (pool_init size) s); eauto using invA_init, invB_init.
+  intros x Hx. simpl in Hx. destruct Hx.
 Qed.
